@@ -56,7 +56,7 @@ def register(w):
     def _(c):
         c.no_runtime = True
         AE, PSC = "self._after_events", "self._pending_send_cancels"
-        c.mod("self.status", "self._actors", AE, "self._after_threads", PSC, "self._scheduled_sends")
+        c.mod("self.status", "self._actors", AE, "self._after_threads", PSC, "self._scheduled_sends", "Flag.is_set")
         c.req("valid_status(self.status)")
         ACTIVE = "(old(self.status) != 'uninitialized' and old(self.status) != 'stopped')"
         c.ens("status_step(old(self.status), self.status)", label="status-edge-allowed")
